@@ -1,0 +1,109 @@
+//! Read-only probes of the crate's two thread-locals (anchor_store.rs `STATE`, de_error.rs
+//! `MISSING_FIELD_FALLBACK`).
+//!
+//! Written only in terms of the crate-visible query functions, so neither thread-local nor any code
+//! outside this file is touched:
+//! * the context stack is observed through `current_*_anchor()` (innermost id per kind: the stack is
+//!   empty iff all four are `None`);
+//! * the four pointer stores are observed through `get_*::<Probe>(id)`: an id that is present can
+//!   never hold the private type `Probe`, so presence shows as `Err`, absence as `Ok(None)`
+//!   (the temporary `Rc`/`Arc` clone made by `get_*` is dropped again: no net change);
+//! * `in_progress` is observed through `recursive_anchor_in_progress(id)` and `*_reentrant(id)`;
+//! * the fallback cell is observed through `<Error as serde::de::Error>::missing_field`, which attaches
+//!   the current cell value exactly as every static Serde error constructor does (`None` and
+//!   `Some(Location::UNKNOWN)` are indistinguishable for the crate itself, and so for this probe).
+use crate::anchor_store as st;
+use crate::{Error, Location};
+
+/// What can be seen of `anchor_store::STATE` for anchor ids `0..=max_id`.
+#[derive(Clone, Debug, Default, PartialEq, Eq)]
+pub struct AnchorProbe {
+    /// innermost context id per kind: Rc, Arc, RcRecursive, ArcRecursive
+    pub current: [Option<usize>; 4],
+    /// ids present in the stores rc, arc, rc_recursive, arc_recursive
+    pub stored: [Vec<usize>; 4],
+    /// ids with a recursive kind (RcRecursive | ArcRecursive) in `in_progress`
+    pub recursive_in_progress: Vec<usize>,
+    /// ids whose `in_progress` count is > 1, per kind
+    pub reentrant: [Vec<usize>; 4],
+}
+
+impl AnchorProbe {
+    /// nothing on the stack, nothing stored, nothing in progress
+    pub fn is_clean(&self) -> bool {
+        self.current.iter().all(|c| c.is_none())
+            && self.stored.iter().all(|s| s.is_empty())
+            && self.recursive_in_progress.is_empty()
+            && self.reentrant.iter().all(|s| s.is_empty())
+    }
+    /// number of stored pointers (all four stores)
+    pub fn entries(&self) -> usize {
+        self.stored.iter().map(|s| s.len()).sum()
+    }
+    /// number of anchor kinds that currently have an open context
+    pub fn contexts(&self) -> usize {
+        self.current.iter().filter(|c| c.is_some()).count()
+    }
+}
+
+struct Probe;
+
+pub fn anchor_probe(max_id: usize) -> AnchorProbe {
+    let mut p = AnchorProbe {
+        current: [
+            st::current_rc_anchor(),
+            st::current_arc_anchor(),
+            st::current_rc_recursive_anchor(),
+            st::current_arc_recursive_anchor(),
+        ],
+        ..Default::default()
+    };
+    for id in 0..=max_id {
+        if !matches!(st::get_rc::<Probe>(id), Ok(None)) {
+            p.stored[0].push(id);
+        }
+        if !matches!(st::get_arc::<Probe>(id), Ok(None)) {
+            p.stored[1].push(id);
+        }
+        if !matches!(st::get_rc_recursive::<Probe>(id), Ok(None)) {
+            p.stored[2].push(id);
+        }
+        if !matches!(st::get_arc_recursive::<Probe>(id), Ok(None)) {
+            p.stored[3].push(id);
+        }
+        if st::recursive_anchor_in_progress(id) {
+            p.recursive_in_progress.push(id);
+        }
+        if st::rc_anchor_reentrant(id) {
+            p.reentrant[0].push(id);
+        }
+        if st::arc_anchor_reentrant(id) {
+            p.reentrant[1].push(id);
+        }
+        if st::rc_recursive_reentrant(id) {
+            p.reentrant[2].push(id);
+        }
+        if st::arc_recursive_reentrant(id) {
+            p.reentrant[3].push(id);
+        }
+    }
+    p
+}
+
+/// The location a static Serde error constructor would attach right now
+/// (`None` = cell empty or `Location::UNKNOWN`).
+pub fn fallback_probe() -> Option<Location> {
+    let e = <Error as serde::de::Error>::missing_field("__verif_probe");
+    match e {
+        Error::SerdeMissingField { location, .. } if location != Location::UNKNOWN => Some(location),
+        _ => None,
+    }
+}
+
+/// `(line, column)` of [`fallback_probe`], `(0, 0)` when there is none.
+pub fn fallback_line_col() -> (u64, u64) {
+    match fallback_probe() {
+        Some(l) => (l.line() as u64, l.column() as u64),
+        None => (0, 0),
+    }
+}
